@@ -248,6 +248,11 @@ pub struct ModelEntrySpec {
     pub num_lods: u8,
     pub index_streaming: bool,
     pub edge_geometry: bool,
+    /// where the eight sections (logical order stack, runtime, v0, i0, v1, i1, v2, i2) lie inside the entry: a
+    /// permutation of 0..8 listing the logical sections in physical order (empty = logical order), and a gap of
+    /// unrelated bytes in front of each section. The slot tables carry every section's own offset.
+    pub phys_order: Vec<usize>,
+    pub phys_gap_128: usize,
 }
 
 /// A complete *model* dat entry (no edge-geometry blocks).
@@ -264,13 +269,23 @@ pub fn model_entry(m: &ModelEntrySpec, extra_header_128: usize) -> Vec<u8> {
     let hsize = header_size_for(hdr_len, extra_header_128);
     let mut offsets = [0u32; 11];
     let mut first_block = [0u16; 11];
-    let mut off = 0usize;
     let mut blk = 0usize;
     for &s in &file_order {
-        offsets[s] = off as u32;
         first_block[s] = blk as u16;
-        off += enc[s].iter().map(|e| e.len()).sum::<usize>();
         blk += slots[s].len();
+    }
+    let phys: Vec<usize> = if m.phys_order.is_empty() { (0..8).collect() } else { m.phys_order.clone() };
+    assert!({
+        let mut p = phys.clone();
+        p.sort();
+        p == (0..8).collect::<Vec<_>>()
+    });
+    let mut off = 0usize;
+    for &k in &phys {
+        let s = file_order[k];
+        off += m.phys_gap_128 * 128;
+        offsets[s] = off as u32;
+        off += enc[s].iter().map(|e| e.len()).sum::<usize>();
     }
     // unused (edge) slots point at the end like real files
     for s in 5..8 {
@@ -302,7 +317,10 @@ pub fn model_entry(m: &ModelEntrySpec, extra_header_128: usize) -> Vec<u8> {
         }
     }
     w.pad_to(hsize);
-    for &s in &file_order {
+    for &k in &phys {
+        let s = file_order[k];
+        w.fill(m.phys_gap_128 * 128, 0x5A);
+        assert_eq!(w.len(), hsize + offsets[s] as usize);
         for e in &enc[s] {
             w.bytes(e);
         }
